@@ -141,11 +141,40 @@ theorem mapVals_objNodup (h : Str → J → J) (hh : ∀ k v, v.nodup = true →
       exact ⟨hh k v hl.1, this⟩
   exact this l hl.2
 
+
+theorem nsFieldVal_nodup (c : Ctx) (k : Str) (v : J) (hv : v.nodup = true) : (c.nsFieldVal k v).nodup = true := by
+  cases v <;> simp only [Ctx.nsFieldVal] <;> (try split) <;> simp_all [J.nodup]
+
+theorem nsDocOf_nodup (c : Ctx) (v : J) (hv : v.nodup = true) : (c.nsDocOf v).nodup = true := by
+  cases v with
+  | obj m => exact mapVals_objNodup _ (fun k v hv => nsFieldVal_nodup c k v hv) m hv
+  | _ => exact hv
+
+theorem mapList_nodup (f : J → J) (hf : ∀ x, x.nodup = true → (f x).nodup = true) :
+    ∀ xs : List J, nodupList xs = true → nodupList (xs.map f) = true
+  | [], _ => rfl
+  | x :: xs, h => by
+    simp only [nodupList, Bool.and_eq_true] at h
+    simp only [List.map_cons, nodupList, Bool.and_eq_true]
+    exact ⟨hf x h.1, mapList_nodup f hf xs h.2⟩
+
+theorem nsVal_nodup (c : Ctx) (k : Str) (v : J) (hv : v.nodup = true) : (c.nsVal k v).nodup = true := by
+  unfold Ctx.nsVal
+  split
+  · exact nsDocOf_nodup c v hv
+  · split
+    · cases v with
+      | arr xs =>
+        simp only [J.nodup] at hv ⊢
+        exact mapList_nodup _ (fun x hx => nsDocOf_nodup c x hx) xs hv
+      | _ => exact hv
+    · exact nsFieldVal_nodup c k v hv
+
 theorem cmdDoc_nodup (c : Ctx) (v : J) (h : v.nodup = true) : (c.cmdDoc v).nodup = true := by
   rw [← Ctx.cmdDoc_refine]
   cases v with
   | obj cmd =>
-    have e1 : c.redactCommandA cmd = mapVals (fun k v => c.run (Ctx.zoneState (lookup sInsert cmd).isSome k) v) cmd := rfl
+    have e1 : c.redactCommandA cmd = mapVals (fun k v => c.run (Ctx.zoneState (lookup sInsert cmd).isSome (lookup sBulkWrite cmd).isSome k) v) cmd := rfl
     have e2 : ∀ l, c.redactNamespace l = mapVals c.nsVal l := fun _ => rfl
     have h1 : (J.obj (c.redactCommandA cmd)).nodup = true := by
       rw [e1]; exact mapVals_objNodup _ (fun k v hv => Ctx.run_nodup c _ v hv) cmd h
@@ -154,7 +183,7 @@ theorem cmdDoc_nodup (c : Ctx) (v : J) (h : v.nodup = true) : (c.cmdDoc v).nodup
     · rw [e2]
       apply mapVals_objNodup _ _ _ h1
       intro k v hv
-      cases v <;> simp only [Ctx.nsVal] <;> (try split) <;> simp_all [J.nodup]
+      exact nsVal_nodup c k v hv
     · exact h1
   | _ => exact h
 
